@@ -610,8 +610,10 @@ def tie(ctx):
     dis += ext['dis']
     nontriv += ext['nontriv']
     lk = tie_lookup(ctx, dist)
+    lg = tie_log(ctx, dist)
+    dis += lg['dis']
     dis += lk['dis']
-    n_eval = len(pcs) + len(fcs) + ext['n'] + lk['n']
+    n_eval = len(pcs) + len(fcs) + ext['n'] + lk['n'] + lg['n']
     return {
         'evaluations': n_eval,
         'distinct_nontrivial': nontriv,
@@ -817,6 +819,274 @@ def tie_ext(ctx, dist):
         if len(dis) > 3:
             break
     return {'dis': dis, 'nontriv': nontriv, 'n': len(terms)}
+
+
+# ------------------------------------------------------------------ the download as the real Log object starts it
+
+def run_log(case, choose=None, cache=None, chain_param=None):
+    """Drive the real Log object (Log.refresh_toc -> reset request -> reset reply -> TocFetcher).
+    Events: ('S',) a copy of the reset reply (port 5, settings channel); ('D', k) reply to the k-th request sent
+    on the TOC channel of port 5 (by any fetcher); ('R', chan, data) raw packet on port 5.
+    case: ver, raw (log items), crc, extra, evs.  Returns (encoded observation, info)."""
+    import cflib.crazyflie.log as lg
+    ver = case['ver']
+    dev = fk.PyDev(case['raw'], case['crc'], bytes(case['extra']))
+    trace = []
+    cf = fk.FakeCF(ver, trace)
+    instances = []
+    marks = []
+    Orig = lg.TocFetcher
+
+    class Rec(Orig):
+        def __init__(self, *a, **k):
+            Orig.__init__(self, *a, **k)
+            instances.append(self)
+            marks.append(len(trace))
+    lg.TocFetcher = Rec
+    try:
+        log = lg.Log(cf)
+        stub = cache if cache is not None else StubCache(trace, {})
+        fins = []
+
+        def finished():
+            trace.append(('fin',))
+            fins.append(len(trace))
+            if chain_param is not None:
+                chain_param(cf, stub, trace)
+        log.refresh_toc(finished, stub)
+        evs = []
+        k = 0
+        while True:
+            if choose is not None:
+                ev = choose(len(cf.sent(LOG_PORT, 0)), instances[0] if instances else None, cf)
+                if ev is None:
+                    break
+            else:
+                if k >= len(case['evs']):
+                    break
+                ev = case['evs'][k]
+                k += 1
+            ev = tuple(ev)
+            evs.append(ev)
+            if ev[0] == 'S':
+                cf.deliver(LOG_PORT, 1, bytes([5, 0, 0]))
+            elif ev[0] == 'D':
+                reqs = cf.sent(LOG_PORT, 0)
+                if ev[1] < len(reqs):
+                    r = dev.reply(ver >= 4, reqs[ev[1]][3])
+                    if r is not None:
+                        cf.deliver(LOG_PORT, 0, r)
+            else:
+                cf.deliver(LOG_PORT, ev[1], bytes(ev[2]))
+        if log.toc is None or not instances:
+            obs = [-1]
+        else:
+            f = instances[0]
+            st = {None: 0, 'GET_TOC_INFO': 1, 'GET_TOC_ELEMENT': 2}.get(f.state, 9)
+            tr = [t for t in trace[marks[0]:] if not (t[0] in ('got', 'send') and t[1] == LOG_PORT and t[2] == 1)
+                  and not (t[0] in ('got', 'send') and t[1] != LOG_PORT)]
+            obs = [len(instances), 1 if cf.registered(f._new_packet_cb) else 0, st, _b(f._useV2),
+                   -1 if f.requested_index is None else f.requested_index,
+                   -1 if f.nbr_of_items is None else f.nbr_of_items, f._crc] + enc_toc(log.toc.toc) + enc_trace(tr, LOG_PORT)
+        return obs, {'evs': evs, 'trace': trace, 'log': log, 'cf': cf, 'fetchers': instances, 'fins': len(fins)}
+    finally:
+        lg.TocFetcher = Orig
+
+
+def q_levs(evs):
+    out = []
+    for e in evs:
+        if e[0] == 'S':
+            out.append('LReset')
+        elif e[0] == 'D':
+            out.append('LEv (Deliver %d)' % e[1])
+        else:
+            out.append('LEv (Raw %d %s)' % (e[1], q_str(e[2])))
+    return '[' + '; '.join(out) + ']'
+
+
+HEADER_L = HEADER.replace('C03.Model.', 'C03.Model C03.Restart.')
+
+
+def log_adversary(rng, n_items, mode):
+    inner = adversary(rng, n_items, 'dup' if mode == 'garbage' else mode)
+    started = [False]
+
+    def choose(n_sent, f, cf):
+        r = rng.random()
+        if not started[0] and r < 0.8:
+            started[0] = True
+            return ('S',)
+        if r < 0.22:
+            return ('S',)
+        if mode == 'garbage' and r < 0.3:
+            return ('R', rng.choice([0, 0, 3]), bytes(rng.randrange(256) for _ in range(rng.choice([1, 2, 3, 5, 7, 12]))))
+        if n_sent == 0:
+            return ('D', rng.randrange(0, 2)) if rng.random() < 0.5 else ('S',)
+        return inner(n_sent, f)
+    return choose
+
+
+def tie_log(ctx, dist):
+    rng = ctx.rng
+    terms, exp, cases = [], [], []
+    for _ in range(ctx.scale(60, 600)):
+        n = rng.choice([0, 1, 1, 2, 3, 5, 8])
+        ver = rng.choice([-1, 3, 4, 7])
+        items = gen_items(rng, 'log', n, ver >= 4)
+        case = {'ver': ver, 'raw': raw_items('log', items), 'crc': rng.getrandbits(32), 'extra': list(rng.choice([b'', b'\x10\x10']))}
+        mode = rng.choice(['honest', 'dup', 'dup', 'garbage'])
+        obs, info = run_log(case, choose=log_adversary(rng, n, mode))
+        terms.append('enc_lrun (lrun (fun _ => None) %s %s %s)' % (coqrun.z(ver), q_dev(case['raw'], case['crc'], case['extra']),
+                                                                  q_levs(info['evs'])))
+        exp.append(obs)
+        cases.append((case, info['evs']))
+        dist['log_start_traces'] = dist.get('log_start_traces', 0) + 1
+        dist['log_reset_copies'] = dist.get('log_reset_copies', 0) + sum(1 for e in info['evs'] if e[0] == 'S')
+    dis = []
+    for bi, mv in compare_blocks(HEADER_L, terms, exp, tag='c03r', shard=max(2, len(terms) // 10 + 1)):
+        first = None
+        if mv is not None:
+            for k in range(max(len(mv), len(exp[bi]))):
+                if k >= len(mv) or k >= len(exp[bi]) or mv[k] != exp[bi][k]:
+                    first = k
+                    break
+        c, evs = cases[bi]
+        dis.append({'what': 'Log download start (reset replies + fetch): model and implementation differ',
+                    'ver': c['ver'], 'n': len(c['raw']), 'events': [list(e[:2]) for e in evs][:60], 'first_diff_at': first,
+                    'model': None if mv is None or first is None else mv[max(0, first - 6):first + 6],
+                    'impl': None if first is None else exp[bi][max(0, first - 6):first + 6]})
+        if len(dis) > 3:
+            break
+    return {'dis': dis, 'n': len(terms)}
+
+
+def oracle_log_case(case):
+    """property text through the real Log (and Param) objects with a real TocCache: whenever the download is reported
+    finished the table equals the device's table exactly, and the cache file under the device's CRC holds it."""
+    import shutil
+    import tempfile
+    from cflib.crazyflie.toccache import TocCache
+    items = [ditem_unjson(d) for d in case['items']]
+    pitems = [ditem_unjson(d) for d in case.get('pitems', [])]
+    c = dict(case, raw=raw_items('log', items))
+    root = tempfile.mkdtemp(prefix='c03_', dir=os.path.join(coqrun.VERIF, '.build'))
+    try:
+        cache = TocCache(rw_cache=root)
+        evs = [tuple(e[:2]) + ((bytes(e[2]),) if len(e) > 2 else ()) for e in case['evs']]
+        it_ = iter(evs)
+        guard = [4 * len(items) + 20]
+        pstate = {}
+
+        def chain(cf, ch, trace):                 # what Crazyflie does on log completion: memories, then parameters
+            import cflib.crazyflie.param as pm
+            par = pm.Param.__new__(pm.Param)
+            par.toc = pm.Toc()
+            par.cf = cf
+            par._useV2 = case['ver'] >= 4
+            pstate.setdefault('pars', []).append(par)
+            par.refresh_toc(lambda: trace.append(('pfin',)), ch)
+
+        def choose(n_sent, f, cf):
+            ev = next(it_, None)
+            if ev is not None:
+                return ev
+            guard[0] -= 1
+            if guard[0] < 0 or n_sent == 0 or any(t == ('fin',) for t in cf.trace):
+                return None
+            return ('D', n_sent - 1)
+        obs, info = run_log(c, choose=choose, cache=cache, chain_param=chain if case.get('param') else None)
+        tr, cf = info['trace'], info['cf']
+
+        def fail(klass, detail):
+            return {'class': klass, 'case': case, 'detail': detail, 'expected': 'finished => table == device table, once', 'observed': detail}
+        # parameter download (if chained), with more reset-reply copies in between and afterwards
+        if case.get('param') and pstate.get('pars'):
+            pdev = fk.PyDev(raw_items('param', pitems), case['pcrc'], b'')
+            for step in range(len(pitems) + 3):
+                if any(t == ('pfin',) for t in tr):
+                    break
+                if step in case.get('late_resets', []):
+                    cf.deliver(LOG_PORT, 1, bytes([5, 0, 0]))
+                reqs = cf.sent(PARAM_PORT, 0)
+                if not reqs:
+                    break
+                r = pdev.reply(case['ver'] >= 4, reqs[-1][3])
+                if r is None:
+                    break
+                cf.deliver(PARAM_PORT, 0, r)
+        for _ in range(case.get('after_done_resets', 0)):
+            cf.deliver(LOG_PORT, 1, bytes([5, 0, 0]))
+            # a restarted download would now be waiting for replies: answer whatever is outstanding
+            for _ in range(len(items) + 3):
+                reqs = cf.sent(LOG_PORT, 0)
+                r = fk.PyDev(c['raw'], case['crc'], b'').reply(case['ver'] >= 4, reqs[-1][3]) if reqs else None
+                before = len(tr)
+                if r is not None:
+                    cf.deliver(LOG_PORT, 0, r)
+                if len([t for t in tr[before:] if t[0] == 'send']) == 0:
+                    break
+        exc = [t for t in tr if t[0] == 'raised']
+        if exc:
+            return fail('log_download_raises', 'callback raised %r' % (exc[0][1:],))
+        fins = sum(1 for t in tr if t == ('fin',))
+        if fins == 0 and not any(e[0] == 'S' for e in evs):
+            return None
+        if fins != 1:
+            return fail('log_download_not_finished_once', 'log download reported finished %d times' % fins)
+        first_fin = tr.index(('fin',))
+        if len(info['fetchers']) != 1:
+            return fail('log_download_restarted', '%d downloads were started by the copies of the reset reply' % len(info['fetchers']))
+        bad = check_table('log', items, info['log'].toc) if info['log'].toc is not None else 'log table is None'
+        if bad:
+            return fail('log_table_differs_when_finished', bad)
+        files = sorted(os.listdir(root))
+        want = ['%08X.json' % case['crc']] + (['%08X.json' % case['pcrc']] if case.get('param') and any(t == ('pfin',) for t in tr) else [])
+        if files != sorted(set(want)):
+            return fail('log_cache_files_wrong', 'cache directory holds %r, expected %r' % (files, sorted(set(want))))
+        if case['crc'] != case.get('pcrc'):
+            got = TocCache(rw_cache=root).fetch(case['crc'])
+            from cflib.crazyflie.toc import Toc
+            h = Toc()
+            h.toc = got if isinstance(got, dict) else {}
+            bad = None if (not items and got == {}) else check_table('log', items, h) if isinstance(got, dict) else 'cache file does not load'
+            if bad:
+                return fail('log_cache_file_differs', 'file under the device CRC: %s' % bad)
+        if case.get('param'):
+            pf = sum(1 for t in tr if t == ('pfin',))
+            if pf != 1 or len(pstate.get('pars', [])) != 1:
+                return fail('param_download_not_started_or_finished_once', 'parameter download started %d times, finished %d times' % (len(pstate.get('pars', [])), pf))
+            bad = check_table('param', pitems, pstate['pars'][0].toc)
+            if bad:
+                return fail('param_table_differs_when_finished', bad)
+        return None
+    finally:
+        shutil.rmtree(root, ignore_errors=True)
+
+
+def gen_log_oracle_cases(ctx, deep):
+    """copies of the reset reply at EVERY position of the download: before INFO, between INFO and element 0, between
+    elements, after completion, during and after the parameter download; one or two copies; both generations"""
+    rng = ctx.rng
+    out = []
+    for ver in (3, 7):
+        for n in ([0, 1, 2, 4] if not deep else [0, 1, 2, 3, 4, 6]):
+            items = gen_items(rng, 'log', n, ver >= 4)
+            honest = [['S']] + [['D', k] for k in range(n + 1)]
+            for pos in range(1, len(honest) + 1):
+                for copies in (1, 2):
+                    evs = honest[:pos] + [['S']] * copies + honest[pos:]
+                    if rng.random() < 0.3:
+                        evs.insert(rng.randrange(1, len(evs) + 1), ['D', rng.randrange(0, n + 1)])     # plus a stale reply
+                    with_param = rng.random() < 0.35
+                    pit = gen_items(rng, 'param', rng.choice([1, 2, 3]), ver >= 4) if with_param else []
+                    for it in pit:
+                        it['ext'] = False
+                    out.append({'kind': 'log', 'ver': ver, 'items': [ditem_json(i) for i in items], 'crc': rng.getrandbits(32),
+                                'extra': [], 'evs': evs, 'param': with_param, 'pitems': [ditem_json(i) for i in pit],
+                                'pcrc': rng.getrandbits(32), 'late_resets': [rng.randrange(0, 3)] if with_param else [],
+                                'after_done_resets': rng.choice([0, 1, 2])})
+    return out
 
 
 # ------------------------------------------------------------------ lookups
@@ -1138,6 +1408,8 @@ def _run_oracle_case(case):
             return oracle_ext_case(case)
         if case.get('kind') == 'refetch':
             return oracle_refetch_case(case)
+        if case.get('kind') == 'log':
+            return oracle_log_case(case)
         return oracle_fetch_case(case)
     except Exception as e:  # noqa
         import traceback
@@ -1157,7 +1429,7 @@ def corpus_cases():
 def oracle(ctx, deep=False):
     fails = []
     n = 0
-    for case in corpus_cases() + _mk_oracle_cases(ctx, deep):
+    for case in corpus_cases() + _mk_oracle_cases(ctx, deep) + gen_log_oracle_cases(ctx, deep):
         n += 1
         f = _run_oracle_case(case)
         if f:
